@@ -255,8 +255,17 @@ Definition add_links (cs : list comp) (ls : list link) : option nat := add_links
 
 (* ---- instantiate_classes ------------------------------------------------------------------- *)
 
-Inductive base := BObj (u : str) | BAttr (u : str)
+(* getattr(instance of unit u, a).  Convention of the scratch classes (tie/impl/c16_links.py): the attributes an, az, ae, af
+   hold None, 0, "" and False; every other attribute (at) holds a marker object that identifies the unit. *)
+Definition s_an : str := [97;110]%N.  Definition s_az : str := [97;122]%N.
+Definition s_ae : str := [97;101]%N.  Definition s_af : str := [97;102]%N.
+Inductive base := BObj (u : str) | BAttr (u : str)      (* BAttr u: the marker object held by an attribute of unit u *)
+                | BLit (n : N)                          (* 0 = None, 1 = 0, 2 = "", 3 = False *)
                 | BNs (c : str).   (* the not yet instantiated Namespace of component c *)
+Definition attr_value (u a : str) : base :=
+  if str_eqb a s_an then BLit 0 else if str_eqb a s_az then BLit 1
+  else if str_eqb a s_ae then BLit 2 else if str_eqb a s_af then BLit 3 else BAttr u.
+Definition key_leaf (k : str) : str := last (split_key k) [].          (* split_key_leaf(k)[1] *)
 Inductive value := VBase (b : base) | VFn (j : nat) (args : list base).
 Inductive event :=
 | ENew (u : str) (args : list (nat * value))      (* constructor of unit u; (parameter index, value) for set link parameters *)
@@ -284,7 +293,7 @@ Definition source_object (cs : list comp) (st : state) (k : str) : src_res :=
       if under_instantiated_group c st && negb (fx_source fx && is_type c && inst)
       then SRaise        (* cfg[dest] goes through an object: NSKeyError (fx_source: taken from `instantiated` instead) *)
       else if str_eqb k (c_dest c) then SVal (if inst then BObj (c_dest c) else BNs (c_dest c))   (* cfg[dest]: object, or still a Namespace *)
-      else if inst then SVal (BAttr (c_dest c))                                     (* getattr(object, attr) *)
+      else if inst then SVal (attr_value (c_dest c) (key_leaf k))                  (* getattr(object, attr), whatever its value *)
       else if is_type c then SSkip              (* not hasattr(namespace, attr): link ignored for now *)
       else SRaise                               (* getattr(namespace, attr): AttributeError *)
   end.
